@@ -227,6 +227,27 @@ func runC11(r *harness.Run) {
 	})
 	c11Blocking(r)
 	c11ThreadAfterCancel(r)
+	c11LiveContextFamilies(r)
+}
+
+// c11LiveContextFamilies — "until the context is done, attaching it does not change the script's
+// behaviour": the coroutine-centred program families (coroutines created by coroutines to depth 4
+// and used after their creators died, Go functions as bodies, yields below call boundaries,
+// closures x exit routes incl. coroutine exits, generic for) run on states that carry a live,
+// never cancelled context and must give the reference interpreter's trace.
+func c11LiveContextFamilies(r *harness.Run) {
+	ctx, cancel := context.WithCancel(context.Background())
+	defer cancel()
+	pc := c03Runner(r)
+	pc.prop = "C11"
+	pc.sigPrefix = "livectx/"
+	inner := pc.extraI
+	pc.extraI = func(m *glrun.Impl) {
+		inner(m)
+		m.L.SetContext(ctx)
+	}
+	pc.runGens(map[string]Gen{"F-cochain": genCoChain(), "F-hostbody": genHostBody(), "F-yieldacross": genYieldAcross(), "F-closure": genClosure(false), "F-genfor": genGenFor(false)},
+		[]string{"F-cochain", "F-hostbody", "F-yieldacross", "F-closure", "F-genfor"})
 }
 
 func evArgs(es []glrun.Event) [][]string {
